@@ -168,8 +168,24 @@ func projectModule(raw []byte, in *interner) (string, error) {
 				ct[i] = fmt.Sprintf("CL %s %s %s", in.id(c.app), in.id(c.ep), common.GBool(c.alt))
 			}
 			attrs := gm(e, "attrs")
-			epTerms = append(epTerms, fmt.Sprintf("EP %s %d %s %s %s %s", in.id(en), len(strings.Split(en, " ")), common.GList(ct),
-				in.list(acts), in.list(attrList(attrs, "passthrough")), in.list(attrList(attrs, "exclude"))))
+			// URL then query parameters as exporter.findSwaggerType classifies their types
+			var pcs []string
+			rp := gm(e, "restParams")
+			for _, k := range []string{"urlParam", "queryParam"} {
+				for _, prm := range gl(rp, k) {
+					pcs = append(pcs, paramClass(gm(prm, "type")))
+				}
+			}
+			// top-level return statements: payload contains "<:" but not " <: "
+			var rets []string
+			for _, st := range gl(e, "stmt") {
+				if rt := gm(st, "ret"); rt != nil {
+					pl := gs(rt, "payload")
+					rets = append(rets, common.GBool(strings.Contains(pl, "<:") && len(strings.Split(pl, " <: ")) < 2))
+				}
+			}
+			epTerms = append(epTerms, fmt.Sprintf("EP %s %d %s %s %s %s %s %s", in.id(en), len(strings.Split(en, " ")), common.GList(ct),
+				in.list(acts), in.list(attrList(attrs, "passthrough")), in.list(attrList(attrs, "exclude")), common.GList(pcs), common.GList(rets)))
 		}
 		var tyTerms []string
 		types := gm(a, "types")
@@ -193,6 +209,20 @@ func projectModule(raw []byte, in *interner) (string, error) {
 		appTerms = append(appTerms, fmt.Sprintf("AP %s %s %s %s", in.id(an), common.GBool(hasPattern(gm(a, "attrs"), "human")), common.GList(epTerms), common.GList(tyTerms)))
 	}
 	return common.GList(appTerms), nil
+}
+
+func paramClass(t jm) string {
+	switch {
+	case t == nil:
+		return "PPrim"
+	case t["primitive"] != nil || t["enum"] != nil:
+		return "PPrim"
+	case t["typeRef"] != nil || t["tuple"] != nil || t["relation"] != nil:
+		return "PObj"
+	case t["set"] != nil || t["sequence"] != nil || t["list"] != nil || t["map"] != nil || t["oneOf"] != nil || t["noType"] != nil:
+		return "PErr"
+	}
+	return "PPrim" // no type set
 }
 
 func flagVal(argv []string, names ...string) (string, bool) {
@@ -252,6 +282,9 @@ func cmdTerm(r *Run, in *interner) string {
 	case "export-swagger", "export-openapi2":
 		a, ok := flagVal(av, "-a")
 		return "CSwagger " + opt(a, ok)
+	case "export-openapi3":
+		a, ok := flagVal(av, "-a")
+		return "COpenapi3 " + opt(a, ok)
 	case "generate-db-scripts":
 		a, _ := flagVal(av, "-a")
 		return "CDbCreate " + in.list(strings.Split(a, ","))
@@ -292,7 +325,7 @@ func (w *caseWriter) addModel(m *SModel, text string, runs []*Run, obs map[*Run]
 		o := obs[r]
 		cls := "OErr"
 		switch {
-		case o.Crash || o.Timeout:
+		case o.Crash || o.Timeout || o.CPUHang:
 			cls = "OCrash"
 		case o.RC == 0:
 			cls = "OOk"
